@@ -61,7 +61,8 @@ ASSUMPTIONS = [
     "file object is lost (buffer flushed at 8192 bytes, flush() and close()); no power-loss semantics, no I/O errors",
     "crash, class win_rename_semantics (os.rename refusing an existing destination as on Windows): the check runs on "
     "POSIX, the statement names no platform -> outcome only labelled (win:file_missing_window), never a violation",
-    "file permissions after a crash (temp file mode vs. wallet mode) are not part of the statement",
+    "file permissions are not part of the statement: a death between rename and chmod leaves the complete new file with "
+    "the temp file's umask mode instead of the old 0600 -> only labelled perm_wider_than_old_after_crash",
     "pack/unpack derive the key with scrypt = PBKDF2-HMAC-SHA256; by RFC 2104 key preparation passwords that differ only "
     "in trailing NUL bytes (<= 64 bytes) are the same HMAC key, so unpack() accepts them: a property of the standard "
     "KDF, not of lbry -> don't-care class hmac_equivalent_password (unlock() keys with double SHA256 and has no such "
@@ -448,7 +449,7 @@ def _crypt(case, world, out):
                 how = "raised %s" % type(e).__name__
                 out.label("wrong_refused_by_raising:" + type(e).__name__)
             after = snapshot()
-            suffix = "" if any_secret else ":wallet-without-secrets"
+            suffix = ":" + w["kind"] if any_secret else ":wallet-without-secrets"
             if r is True or not after["locked"]:
                 out.violate("wrong-password-accepted" + suffix, "%s kind=%s: unlock %s, is_locked=%s, "
                             "encryption_password replaced=%s" % (tag_op, w["kind"], how, after["locked"],
@@ -545,8 +546,13 @@ def account_spec(draw):
     return spec
 
 
+def _key_material(spec):
+    """two accounts of one wallet never share their key (same seed up to normalisation / same entropy)"""
+    return " ".join(spec["seed"].lower().split()) if spec["kind"] == "seed" else spec["entropy"]
+
+
 def accounts_strategy():
-    return st.lists(account_spec(), min_size=1, max_size=3, unique_by=lambda s: (s["entropy"], s.get("seed")))
+    return st.lists(account_spec(), min_size=1, max_size=3, unique_by=_key_material)
 
 
 CANONICAL = [["encrypt", 0], ["save"], ["reload"], ["unlock_wrong", 0], ["unlock_right"], ["lock"], ["unlock_wrong", 1],
@@ -671,7 +677,7 @@ def pack_case(draw, tier="quick"):
     for k in chosen:
         opts = [v for kk, v in cands if kk == k]
         wrongs.append({"kind": k, "pw": opts[draw(st.integers(0, len(opts) - 1))]})
-    accounts = draw(st.lists(account_spec(), min_size=1, max_size=2, unique_by=lambda s: (s["entropy"], s.get("seed"))))
+    accounts = draw(st.lists(account_spec(), min_size=1, max_size=2, unique_by=_key_material))
     prefs = draw(st.dictionaries(st.text(NAME_ALPHABET, min_size=1, max_size=6),
                                  st.one_of(st.integers(-5, 5), st.text(NAME_ALPHABET, max_size=8), st.booleans()),
                                  max_size=3))
@@ -926,8 +932,15 @@ def run_crash(case):
             # ---- dry run: enumerate the operations of this save
             reset()
             dry = FaultLayer(win_rename=win)
-            with patched_fs(dry):
-                save()
+            try:
+                with patched_fs(dry):
+                    save()
+            except Exception as e:  # noqa: a complete save must succeed
+                if win:
+                    out.label("win:save_raises")
+                else:
+                    out.violate("save-raises:%s" % type(e).__name__, "ops so far %r: %r" % (dry.log, e))
+                return out
             with open(path, "rb") as f:
                 new_bytes = f.read()
             try:
@@ -956,12 +969,16 @@ def run_crash(case):
             for k, j in points:
                 reset()
                 layer = FaultLayer(crash_at=k, partial=None if j is None else (k, j), win_rename=win)
-                died = False
                 try:
                     with patched_fs(layer):
                         save()
                 except Crash:
-                    died = True
+                    pass
+                except Exception as e:  # noqa
+                    if not layer.dead:  # (after the death any exception is post-mortem noise of the unwinding)
+                        out.violate("save-raises:%s" % type(e).__name__, "crash point %r: %r" % ((k, j), e))
+                        continue
+                died = layer.dead  # also when the code under test swallowed the BaseException: the process is gone
                 assert died == (k < nops), ("crash point not reached", k, j, nops, layer.log)
                 where = "before op %d (%s)" % (k, names[k]) if k < nops and j is None else \
                     "inside op %d (kwrite) after %d bytes" % (k, j) if j is not None else "no crash"
@@ -969,8 +986,11 @@ def run_crash(case):
                 if not died:
                     with open(path, "rb") as f:
                         data = f.read()
-                    assert data == new_bytes, "complete save is not reproducible"
-                    out.label("outcome:completed")
+                    if data == new_bytes:
+                        out.label("outcome:completed")
+                    else:
+                        out.violate("complete-save-not-reproducible", "%d bytes vs %d in the dry run" % (
+                            len(data), len(new_bytes)))
                     continue
                 if not os.path.exists(path):
                     if old is None:
@@ -995,6 +1015,8 @@ def run_crash(case):
                             where, len(data), len(new_bytes), names))
                 elif got == new:
                     out.label(prefix + "outcome:new_complete")
+                    if old is not None and mode == 0o600 and os.stat(path).st_mode & 0o077:
+                        out.label("perm_wider_than_old_after_crash")  # don't-care, see ASSUMPTIONS
                 elif old is not None and got == old:
                     out.label(prefix + "outcome:old_intact")
                 else:
@@ -1108,14 +1130,14 @@ WRONG_KINDS = ("wrong_unrelated", "wrong_prefix", "wrong_case", "wrong_unicode_n
                "wrong_empty", "wrong_other_password")
 
 PARTS = [
-    Part("crypt", crypt_case, run_crypt, 300, 1500, quick_shards=4, thorough_shards=16,
+    Part("crypt", crypt_case, run_crypt, 300, 4000, quick_shards=4, thorough_shards=16,
          essential=WRONG_KINDS + ("acct_seed", "acct_xprv", "acct_xpub", "gen_single", "gen_hd", "with_channel_keys",
                                   "pw_unicode", "pw_astral", "pw_combining", "pw_long", "reload_locked",
                                   "disk_checked_encrypted", "unlocked_with_right_password", "refused_wrong_password",
                                   "seed_wordlist")),
-    Part("pack", pack_case, run_pack, 60, 300, quick_shards=2, thorough_shards=16,
+    Part("pack", pack_case, run_pack, 60, 800, quick_shards=2, thorough_shards=16,
          essential=("acct_seed", "acct_xprv", "acct_xpub", "pw_unicode", "unpack_wrong:InvalidPasswordError")),
-    Part("crash", crash_case, run_crash, 150, 600, quick_shards=2, thorough_shards=16,
+    Part("crash", crash_case, run_crash, 150, 2500, quick_shards=2, thorough_shards=16,
          essential=("via_storage", "via_wallet", "no_previous_file", "outcome:old_intact", "outcome:new_complete",
-                    "outcome:completed", "op:rename", "op:kwrite", "size_8k_64k")),
+                    "outcome:completed", "op:kwrite", "size_8k_64k")),
 ]
